@@ -251,6 +251,48 @@ func dsListRandom(c *CaseCtx, n, length int) {
 		trace := ""
 		for j := 0; j < length; j++ {
 			cur := len(m.L[dsB]["k"])
+			if cur >= 2 && c.Rng.Intn(6) == 0 {
+				// a range of the list itself is pushed back, exactly as LRange returned it (the slices an application gets
+				// from the list may share memory with the list)
+				a := c.Rng.Intn(cur)
+				b := a + c.Rng.Intn(cur-a)
+				vals, err := l.LRange("k", a, b)
+				if err == nil && len(vals) > 0 {
+					o := Op{K: []string{"LPush", "RPush"}[c.Rng.Intn(2)], B: dsB, Key: []byte("k")}
+					for _, v := range vals {
+						o.Vals = append(o.Vals, append([]byte{}, v...))
+					}
+					c.fp.add("self:" + o.String())
+					var perr error
+					p := ""
+					func() {
+						defer func() {
+							if x := recover(); x != nil {
+								p = panicClass(x)
+							}
+						}()
+						if o.K == "LPush" {
+							_, perr = l.LPush("k", vals...)
+						} else {
+							_, perr = l.RPush("k", vals...)
+						}
+					}()
+					c.Stat("api_calls_compared", 1)
+					c.Stat("own_ranges_pushed_back", 1)
+					if p != "" || perr != nil {
+						c.Violate("ds-list:"+o.K+":own-range", "ds-list", fmt.Sprintf("random %s: %s with the list's own LRange(%d,%d) result failed: %v %s", trace, o.K, a, b, perr, p))
+						break
+					}
+					m.Apply(o, Res{})
+					if !checkListState(c, l, m, "random "+trace+" after pushing the list's own LRange result: "+o.String()) {
+						break
+					}
+					if len(trace) < 600 {
+						trace += " ; self:" + o.String()
+					}
+					continue
+				}
+			}
 			ops := listOpsFor(cur, listAlpha, false)
 			o := ops[c.Rng.Intn(len(ops))]
 			if c.Rng.Intn(3) == 0 {
